@@ -241,6 +241,41 @@ macro_rules! ofb_case {
     };
 }
 
+/// StreamCipherCore::apply_keystream_partial (one-shot on the core, any length): OFB / CTR / BelT cores.
+macro_rules! partial_case {
+    ($name:ident, $unw:expr, $mk:expr, $ks:expr, $bs:ty, $b:expr, $par:ty, $l:expr) => {
+        #[kani::proof]
+        #[kani::unwind($unw)]
+        pub fn $name() {
+            const B: usize = $b;
+            const L: usize = $l;
+            const NB: usize = (L + B - 1) / B;
+            let iv: [u8; B] = kani::any();
+            let c = UfE::<$bs, $par>::with_key(kani::any());
+            let mut ks = [0u8; NB * B];
+            $ks(c.p(), &iv, &mut ks);
+            let d: [u8; L + 1] = kani::any();
+            let mut buf = d;
+            $mk(c.clone(), blk::<$bs>(&iv)).apply_keystream_partial((&mut buf[..L]).into());
+            let mut i = 0;
+            while i < L {
+                assert!(buf[i] == d[i] ^ ks[i], "apply_keystream_partial differs from the keystream recurrence");
+                i += 1;
+            }
+            assert!(buf[L] == d[L]);
+            kani::cover!(true);
+        }
+    };
+}
+fn pk_ofb(p: P, iv: &[u8], ks: &mut [u8]) { spec::ofb_ks(p, iv, ks); }
+fn pk_ctr32be(p: P, iv: &[u8], ks: &mut [u8]) { spec::ctr_ks(p, spec::CTR32BE, iv, 0, ks) }
+fn pk_ctr128le(p: P, iv: &[u8], ks: &mut [u8]) { spec::ctr_ks(p, spec::CTR128LE, iv, 0, ks) }
+fn pk_belt(p: P, iv: &[u8], ks: &mut [u8]) { let s0 = spec::belt_s0(p, iv); spec::belt_ks(p, s0, 0, ks) }
+fn pm_ofb<C: cipher::BlockCipherEncrypt>(c: C, iv: &Array<u8, C::BlockSize>) -> ofb::OfbCore<C> { ofb::OfbCore::inner_iv_init(c, iv) }
+fn pm_ctr32be<C: cipher::BlockCipherEncrypt<BlockSize = U4>>(c: C, iv: &Array<u8, U4>) -> ctr::CtrCore<C, ctr::flavors::Ctr32BE> { ctr::CtrCore::inner_iv_init(c, iv) }
+fn pm_ctr128le<C: cipher::BlockCipherEncrypt<BlockSize = U16>>(c: C, iv: &Array<u8, U16>) -> ctr::CtrCore<C, ctr::flavors::Ctr128LE> { ctr::CtrCore::inner_iv_init(c, iv) }
+fn pm_belt<C: cipher::BlockCipherEncrypt<BlockSize = U16>>(c: C, iv: &Array<u8, U16>) -> belt_ctr::BeltCtrCore<C> { belt_ctr::BeltCtrCore::inner_iv_init(c, iv) }
+
 // ---- quick -------------------------------------------------------------------------------
 cfb_case!(cfb_enc_b2_w2_n3_multi, 40, Encryptor, enc, true, U2, 2, U2, 6, MULTI);
 cfb_case!(cfb_enc_b4_w1_n3_b2b, 40, Encryptor, enc, true, U4, 4, U1, 12, B2B);
@@ -267,6 +302,16 @@ cfb8_symlen_case!(cfb8_dec_b2_symlen5, 40, Decryptor, dec, false, U2, 2, 5);
 cfb_case!(cfb_dec_b12_w2_l29_oneshot, 48, Decryptor, dec, false, U12, 12, U2, 29, ONESHOT);
 cfb8_case!(cfb8_enc_b12_l14_oneshot, 40, Encryptor, enc, true, U12, 12, U1, 14, ONESHOT);
 ofb_case!(ofb_bytes_b12_w1_l29, 48, U12, 12, U1, 29, F_BYTES);
+partial_case!(partial_ofb_b4_w2_l11, 48, pm_ofb, pk_ofb, U4, 4, U2, 11);
+partial_case!(partial_ofb_b2_w1_l1, 48, pm_ofb, pk_ofb, U2, 2, U1, 1);
+partial_case!(partial_ctr32be_b4_w2_l14, 48, pm_ctr32be, pk_ctr32be, U4, 4, U2, 14);
+partial_case!(partial_ctr128le_b16_w2_l37, 100, pm_ctr128le, pk_ctr128le, U16, 16, U2, 37);
+partial_case!(partial_belt_w2_l35, 100, pm_belt, pk_belt, U16, 16, U2, 35);
+// single-block entry points of the decryptors
+cfb8_case!(cfb8_dec_b2_l4_single, 40, Decryptor, dec, false, U2, 2, U1, 4, SINGLE);
+// wide backends: width 16 with a tail of 11 blocks (one-byte blocks)
+cfb_case!(cfb_dec_b1_w16_n12_multi, 64, Decryptor, dec, false, U1, 1, U16, 12, MULTI);
+cfb_case!(cfb_dec_b1_w16_n28_multi, 80, Decryptor, dec, false, U1, 1, U16, 28, MULTI);
 ofb_case!(ofb_enc_b2_w2_n3, 40, U2, 2, U2, 6, F_ENC);
 ofb_case!(ofb_dec_b2_w2_n3, 40, U2, 2, U2, 6, F_DEC);
 ofb_case!(ofb_core_b4_w1_n3, 40, U4, 4, U1, 12, F_CORE);
